@@ -11,6 +11,7 @@ import (
 	"errors"
 	"fmt"
 	"net"
+	"os"
 	"runtime"
 	"sort"
 	"sync"
@@ -179,6 +180,8 @@ type scenarioResult struct {
 	ops          int
 	shutAfterOps int
 	panicText    string
+	stacks       string // goroutine dump taken when the watchdog fired
+	fds          int
 }
 
 func classify(err error) (bool, string) {
@@ -492,6 +495,7 @@ func scenario(r *Rng, hist Hist) (*scenarioResult, error) {
 			atomic.StoreInt32(&shutReturned, 1)
 		case <-time.After(15 * time.Second):
 			res.hang = true
+			res.stacks = dumpStacks()
 			atomic.StoreInt32(&shutReturned, 1)
 		}
 	}
@@ -499,6 +503,7 @@ func scenario(r *Rng, hist Hist) (*scenarioResult, error) {
 	case <-allDone:
 	case <-time.After(20 * time.Second):
 		res.hang = true
+		res.stacks = dumpStacks()
 	}
 	close(clientQuit)
 	cwg.Wait()
@@ -511,9 +516,28 @@ func scenario(r *Rng, hist Hist) (*scenarioResult, error) {
 	if !res.hang {
 		res.sizes = pool.VerifPoolSizes()
 	}
+	res.fds = countFds()
 	hist.Add(fmt.Sprintf("gomaxprocs=%d", procs))
 	hist.Add(fmt.Sprintf("connect_callbacks=%s", bucket(int(atomic.LoadInt64(&connects)))))
 	return res, nil
+}
+
+func dumpStacks() string {
+	buf := make([]byte, 1<<20)
+	n := runtime.Stack(buf, true)
+	out := string(buf[:n])
+	if len(out) > 30000 {
+		out = out[:30000]
+	}
+	return out
+}
+
+func countFds() int {
+	d, err := os.ReadDir("/proc/self/fd")
+	if err != nil {
+		return -1
+	}
+	return len(d)
 }
 
 func bucket(n int) string {
@@ -600,7 +624,7 @@ func run(args []string) error {
 		sz := res.sizes[0] + res.sizes[1] + res.sizes[2] + res.sizes[3] + res.sizes[4]
 		cases = append(cases, Tuple(List(perThread), List(codes), B(res.hang || !res.runReturned), fmt.Sprint(sz), fmt.Sprint(res.panics)))
 		cj := map[string]interface{}{"threads": res.threads, "gomaxprocs": res.maxprocs, "calls_per_thread": perThread, "events": evJSON,
-			"hang": res.hang, "run_returned": res.runReturned, "pool_maps_total_size_after_shutdown": sz, "panics": res.panics, "panic_text": res.panicText,
+			"hang": res.hang, "run_returned": res.runReturned, "pool_maps_total_size_after_shutdown": sz, "panics": res.panics, "panic_text": res.panicText, "goroutines_at_watchdog": res.stacks, "open_fds": res.fds,
 			"calls_ran": nran, "calls_pool_closed": nclosed, "calls_started_after_shutdown_returned": nafter}
 		caseJSON["trace"] = append(caseJSON["trace"], cj)
 		o.Count(fmt.Sprint("trace", s, codes), nran > 0 && nclosed > 0)
@@ -610,6 +634,9 @@ func run(args []string) error {
 		}
 		if len(samples) < 3 {
 			samples = append(samples, cj)
+		}
+		if res.hang {
+			break // the leaked goroutines of a hung scenario would disturb the following ones
 		}
 	}
 	o.Def("cases_trace", "list Z * list Z * bool * Z * Z", cases)
